@@ -49,6 +49,8 @@ THEOREMS = [
     "RefineLmGeo.pathLength_refines", "RefineLmGeo.branchPathlength_refines", "RefineLmGeo.contraction_refines", "RefineLmGeo.taper1_refines",
     "RefineLmGeo.taper2_refines", "RefineLmGeo.branch_last", "RefineLmGeo.bifVectorRemote_refines", "RefineLmGeo.bifAmplRemote_refines",
     "RefineLmGeo.bifVectorRemote_not_bif", "C10.generated_bif_ampl_remote",
+    "RefineLmGeo.length_refines", "RefineLmGeo.sectionArea_refines", "RefineLmGeo.volume_refines", "RefineLmGeo.surface_refines", "RefineLmGeo.comp_point",
+    "C10.generated_compartment_measures",
     "C10.generated_path_distance", "C10.generated_euc_distance", "C10.generated_diameter", "C10.generated_rall_power_d", "C10.generated_pk_2",
     "C10.generated_bif_ampl_local", "C10.generated_branch_measures", "C10.generated_contraction_of_node_branch",
 ]
@@ -1957,6 +1959,14 @@ class LmGeo(Suite):
             res["bif_ampl_local"] = [_lg_val(lambda: lm.bif_ampl_local(t.node(i))) for i in range(n)]
             res["bif_vector_remote"] = [_lg_val(lambda: lm._bif_vector_remote(t.node(i))) for i in range(n)]
             res["bif_ampl_remote"] = [_lg_val(lambda: lm.bif_ampl_remote(t.node(i))) for i in range(n)]
+            comps = t.get_compartments()
+            res["comps"] = [[int(x) for x in c.origin_id()] for c in comps]
+            res["length"] = [_lg_val(lambda: lm.length(c)) for c in comps]
+            res["section_area"] = [_lg_val(lambda: lm.section_area(t.node(i))) for i in range(n)]
+            for cp in (0, -1):
+                lmc = LMeasure(compartment_point=cp)
+                res[f"surface{cp}"] = [_lg_val(lambda: lmc.surface(c)) for c in comps]
+                res[f"volume{cp}"] = [_lg_val(lambda: lmc.volume(c)) for c in comps]
             brs = t.get_branches()
             res["branches"] = [[int(x) for x in b.origin_id()] for b in brs]
             res["branch_pathlength"] = [_lg_val(lambda: lm.branch_pathlength(b)) for b in brs]
@@ -2014,6 +2024,15 @@ class LmGeo(Suite):
         out.append((f"{g} what=bif_ampl_local nodes={nodes}", ampl(res["bif_ampl_local"])))
         out.append((f"{g} what=bif_vector_remote nodes={nodes}", vecs(res["bif_vector_remote"])))
         out.append((f"{g} what=bif_ampl_remote nodes={nodes}", ampl(res["bif_ampl_remote"])))
+        if res["comps"] == [[case["pids"][i], i] for i in range(1, n)]:
+            # the compartments `[parent, node]` of the rows 1 .. n-1, in row order (Tree.get_compartments); pi = the double math.pi as an exact rational
+            pi = Fraction(math.pi)
+            ps = f"pi={pi.numerator}/{pi.denominator}"
+            out.append((f"{g} what=length", scal(res["length"], True)))
+            out.append((f"{g} what=section_area {ps}", scal(res["section_area"], False)))
+            for cp in (0, -1):
+                out.append((f"{g} what=surface {ps} cp={cp}", scal(res[f"surface{cp}"], False)))
+                out.append((f"{g} what=volume {ps} cp={cp}", scal(res[f"volume{cp}"], False)))
         out += [(f"{g} what={w}", scal(res[w], w in ("branch_pathlength", "contraction"))) for w in LMGEO_BRANCH]      # taper_1 / taper_2 are float32 quotients
         return out
 
@@ -2056,6 +2075,14 @@ class LmGeo(Suite):
             if res["bif_vector_local"][i] != wv or res["rall_power_d"][i] != wd:
                 out.append(("lmgeo-bifurcation", f"node {i}: _bif_vector_local {res['bif_vector_local'][i]} / _rall_power_d {res['rall_power_d'][i]}; "
                                                  f"child − node vectors {wv}, diameters (parent, children) {wd} (pids={pids})"))
+                break
+        for j, (a, b) in enumerate(res["comps"]):
+            h = d2(a, b)
+            wants = {"length": float(h), "surface0": 2 * math.pi * r[a] * h, "surface-1": 2 * math.pi * r[b] * h,
+                     "volume0": math.pi * r[a] ** 2 * h, "volume-1": math.pi * r[b] ** 2 * h}
+            bad = [k for k, w in wants.items() if abs(res[k][j] - w) > 1e-5 * max(1.0, abs(w))]
+            if bad:
+                out.append(("lmgeo-compartment", f"compartment {a}->{b}: {bad[0]} = {res[bad[0]][j]}, the definition gives {wants[bad[0]]} (radii {r[a]}, {r[b]})"))
                 break
         for b, L, c, t1, t2 in zip(res["branches"], res["branch_pathlength"], res["contraction"], res["taper_1"], res["taper_2"]):
             wl = float(sum(d2(u, v) for u, v in zip(b, b[1:])))
